@@ -175,10 +175,7 @@ type relay struct {
 }
 
 func newRelay(target string) *relay {
-	ln, err := net.Listen("tcp", "127.0.0.1:0")
-	if err != nil {
-		panic(err)
-	}
+	ln := listenLoopback()
 	r := &relay{ln: ln, target: target}
 	go r.serve()
 	return r
@@ -262,6 +259,20 @@ type sessEngine struct {
 	shut    bool
 }
 
+// listenLoopback opens a TCP listener on an ephemeral loopback port, retrying while the box is
+// short of ephemeral ports (many harnesses run side by side).
+func listenLoopback() net.Listener {
+	var err error
+	for i := 0; i < 200; i++ {
+		var ln net.Listener
+		if ln, err = net.Listen("tcp", "127.0.0.1:0"); err == nil {
+			return ln
+		}
+		time.Sleep(25 * time.Millisecond)
+	}
+	panic(err)
+}
+
 // New returns the engine.
 func New() Engine { return &sessEngine{} }
 
@@ -310,10 +321,7 @@ func (e *sessEngine) init(authOn, disable bool) {
 		}), nil)
 	}
 	e.srv = upstream.NewServer(e.mgr, verifier, nil, e.cs, config.UpstreamConfig{}, lg)
-	ln, err := net.Listen("tcp", "127.0.0.1:0")
-	if err != nil {
-		panic(err)
-	}
+	ln := listenLoopback()
 	e.ln = ln
 	go func() { _ = e.srv.Serve(ln) }()
 	e.rl = newRelay(ln.Addr().String())
